@@ -11,6 +11,7 @@ S4 oracle     : every case is printed in GNU syntax by the small printer below (
 import json
 import os
 import random
+import struct
 import re
 import sys
 from concurrent.futures import ThreadPoolExecutor
@@ -62,7 +63,8 @@ def p_gp(x, rid):
     return None
 
 
-VARR = {(3, 1): "8b", (4, 1): "16b", (3, 2): "4h", (4, 2): "8h", (3, 3): "2s", (4, 3): "4s", (3, 4): "1d", (4, 4): "2d"}
+VARR = {(3, 1): "8b", (4, 1): "16b", (3, 2): "4h", (4, 2): "8h", (3, 3): "2s", (4, 3): "4s", (3, 4): "1d", (4, 4): "2d", (2, 2): "2h"}
+LANE_T = {1: "b", 2: "h", 3: "s", 4: "d", 5: "4b", 6: "2h"}
 
 
 def p_vec(o):
@@ -71,9 +73,9 @@ def p_vec(o):
     if not (0 <= rid <= 31):
         return None
     if ei >= 0:
-        if rt != 4 or et not in (1, 2, 3, 4):
+        if rt != 4 or et not in LANE_T:
             return None
-        return "v%d.%s[%d]" % (rid, " bhsd"[et], ei)
+        return "v%d.%s[%d]" % (rid, LANE_T[et], ei)
     if et == 0:
         return "bhsdq"[rt] + str(rid) if 0 <= rt <= 4 else None
     if (rt, et) in VARR:
@@ -266,7 +268,15 @@ def print_gnu(entry, ops):
                     bad = True
                 else:
                     out.append("%s #%d" % (SHIFTN[e[1]], e[2]))
-        elif k in ("SImmU", "SImmS", "SLogImm", "SImmLt", "SMovImm", "SVShift"):
+        elif k == "SFpImm":
+            if o[0] != "i":
+                return None
+            if o[1] >= 256:       # a double immediate given by its bit pattern
+                d = struct.unpack("<d", struct.pack("<Q", o[2] & ((1 << 64) - 1)))[0]
+                out.append("#%s" % repr(d))
+            else:
+                out.append("#%d.0" % o[2])
+        elif k in ("SImmU", "SImmS", "SLogImm", "SImmLt", "SMovImm", "SVShift", "SImmRsub"):
             if o[0] != "i":
                 return None
             out.append("#%d" % o[2])
@@ -469,6 +479,15 @@ def strata(s, pos, rng, tier, isx):
     if k == "SGpDup":
         x = s[1]
         return [[("g", x, pos + 1)]] + [[("g", x, i)] for i in GP_IDS] + [[("g", not x, pos + 1)]]
+    if k == "SFpImm":
+        f64 = lambda d: struct.unpack("<Q", struct.pack("<d", d))[0]
+        ds = [1.0, 2.0, 0.125, 31.0, -1.5, 1.0625, 0.1, 0.0, -0.0, 32.0, 0.0625, 1.03125, float("inf"), float("nan"), 1.9375, -31.0, 0.2421875,
+              [0.125, 0.25, 0.5, 1.0, 2.0, 4.0, 8.0, 16.0][rng.randrange(8)] * (16 + rng.randrange(16)) / 16.0 * (1 - 2 * rng.randrange(2))]
+        return [[("i", 256, f64(d))] for d in ds] + [[("i", 0, v)] for v in (1, 2, -1, 31, 32, 0, 3, 17, -17, 1 << 31, -(1 << 31) - 1, 1 << 40)]
+    if k == "SImmRsub":
+        c, lo, hi = s[3], s[4], s[5]
+        vs = [lo + bits_pattern(s[2]) % (hi - lo + 1), lo, hi, lo - 1, hi + 1, 0, -1, 31, 32, 33, 63, 64, 65, rng.randint(lo, hi)]
+        return [[("i", 0, v)] for v in vs]
     if k == "SImmLt":
         lim = s[3]
         vs = [bits_pattern(s[2]) % lim, 0, 1, lim - 1, lim, lim + 1, -1, 31, 32, 63, 64, rng.randrange(lim)]
@@ -573,6 +592,9 @@ def strata(s, pos, rng, tier, isx):
             mn = (-(1 << (w - 1)) if sgn else 0) * scale
             out.append(mem(off=scale * 3, mode=mode0))
             offs = [0, scale, -scale, mx, mx + scale, mn, mn - scale, -257, -256, -255, -1, 1, 255, 256, 257, scale + 1, mx + 1, 4095, 4096, 32760, 32768]
+            if scale > 1:      # multiples of a smaller access size (an offset that is aligned for the W form but not for the X form, ...)
+                for sub in {scale // 2, scale // 4, 1} - {0}:
+                    offs += [sub, scale + sub, scale * 3 + sub, 252 - 252 % scale + sub, 256 + sub, mx - scale + sub, mx + sub]
             for _ in range(3 if tier == "quick" else 30):
                 offs.append(rng.randrange(mn // scale, mx // scale + 1) * scale)
             modes = [mode0] + [m for m in (0, 1, 2) if m != mode0] if k == "SMemOff" else [0, 1, 2]
@@ -667,6 +689,15 @@ class Gen:
             for j, st in enumerate(strat):
                 for gi, g in enumerate(st[1:]):
                     add(base[:j] + [g] + base[j + 1:], "vary", (ei, j, gi + 1))
+            # pairs: SP / ZR in a register position x every shift/extend modifier (the encoder switches between the shifted- and the
+            # extended-register form on exactly this combination)
+            for k, sk in enumerate(e["syn"]):
+                if sk[0] in ("SExtReg", "SShift"):
+                    for j, sj in enumerate(e["syn"][:k]):
+                        if sj[0] == "SGp":
+                            for rid in (31, 63):
+                                for g in strat[k][1:]:
+                                    add(base[:j] + [[("g", sj[1], rid)]] + base[j + 1:k] + [g] + base[k + 1:], "pair")
             if base:
                 add(base[:-1], "drop-last")
                 if sum(len(g) for g in base) < 4:       # _emit dispatches on the first four operands only
@@ -1030,6 +1061,8 @@ class Judge:
                 # every operand of a phase-2 case was accepted and right on its own in phase 1: the defect is in the COMBINATION; the
                 # canonical key is the encoding class (the particular combination found depends on the seed)
                 verdict = ("C02/operand-combination-accepted/%s" % enc, verdict[1])
+            if os.environ.get("C02_SHOW") and os.environ["C02_SHOW"] in verdict[0]:
+                print("C02_SHOW:", verdict[0], "|", verdict[1], "|", c["cmd"], flush=True)     # debugging aid: the CURRENT input behind a (known) key
             ck.violation(verdict[0], verdict[1] + " [specification: %s]" % xm, rep)
         # --- correspondence implementation vs proven specification
         same = (I["ok"] == M["ok"]) and (not I["ok"] or I["words"] == M["words"])
@@ -1232,7 +1265,8 @@ def run(ck):
         "oracle_unknown_mnemonics": sorted(J.oracle_unknown_mn), "oracle_unavailable_rows": len(J.oracle_unavail_rows),
         "impl_refuses_encodable_by_form": dict(sorted(J.spurious.items(), key=lambda x: -x[1])[:60]),
         "out_of_scope_shapes_accepted_by_impl": J.out_of_scope_accepted,
-        "encoding_tables": {"instructions_dumped": tb["dumped"], "compared_with_db_rows": tb["entries"], "classes_not_covered": tb["classes_not_covered"],
+        "encoding_tables": {"table_words_dumped": tb["dumped"], "entries_compared_with_db_rows": tb["entries"], "instructions_covered": tb["instructions_covered"],
+                            "instructions_total": 774, "classes_not_covered": tb["classes_not_covered"],
                             "without_supported_rows": tb["without_supported_rows"]},
         "db_overrides_applied": [o["key"] for o in b["applied"]], "db_rows_excluded_as_defective": len(b["excluded"]),
         "db_exclusions_revalidated": {"still_disagree": len(still), "stale": len(stale), "not_examinable": len(b["excluded"]) - len(seen)},
